@@ -39,6 +39,14 @@ NamedTD(id) ==
     [] id = "RecTree" -> TStruct(<<Fld("Name", <<78, 97, 109, 101>>, TScalar("string")),
                                    Fld("Kids", <<75, 105, 100, 115>>, TSlice(TNamed("RecTree"))),
                                    FldO("Idx", <<73, 100, 120>>, <<"omitempty">>, TMap(TPtr(TNamed("RecTree"))))>>)
+    \* self-referential without a struct in the cycle
+    [] id = "RecMap" -> TMap(TNamed("RecMap"))
+    [] id = "RecSl" -> TSlice(TNamed("RecSl"))
+    \* exported fields whose identifiers hold upper-case letters outside ASCII (UTF-8 bytes of the Go identifiers)
+    [] id = "UniT" -> TStruct(<<Fld("AenderungsDatum", <<195, 132, 110, 100, 101, 114, 117, 110, 103, 115, 68, 97, 116, 117, 109>>, TScalar("int")),
+                               Fld("ETAT", <<195, 137, 84, 65, 84>>, TScalar("string")),
+                               Fld("IDUebersicht", <<73, 68, 195, 156, 98, 101, 114, 115, 105, 99, 104, 116>>, TScalar("int")),
+                               FldO("Uenter", <<195, 156, 110, 116, 101, 114>>, <<"omitempty">>, TScalar("int"))>>)
     \* self-referential types with a member the library must refuse (kind refuseseq)
     [] id = "RecBadNode" -> TStruct(<<Fld("V", <<86>>, TScalar("int")), Fld("Next", <<78, 101, 120, 116>>, TPtr(TNamed("RecBadNode"))),
                                       Fld("C", <<67>>, TNamed("chan"))>>)
@@ -66,8 +74,11 @@ Resolve(T) == IF T.k = "named" /\ T.id \notin RefuseIds THEN NamedTD(T.id) ELSE 
 
 Opt(f, o) == \E j \in 1..Len(f.opts) : f.opts[j] = o
 IsUpperB(b) == b >= 65 /\ b <= 90
-IsExported(f) == Len(f.nb) > 0 /\ IsUpperB(f.nb[1])
-LowerB(s) == [j \in 1..Len(s) |-> IF IsUpperB(s[j]) THEN s[j] + 32 ELSE s[j]]
+\* upper-case letters of Latin-1 (U+00C0..U+00DE without the multiplication sign) are the UTF-8 bytes C3 80..9E;
+\* their lower-case partners lie 32 code points higher (strings.ToLower maps every upper-case letter, not only A-Z)
+IsUpperL1(s, j) == j > 1 /\ s[j - 1] = 195 /\ s[j] >= 128 /\ s[j] <= 158 /\ s[j] # 151
+IsExported(f) == Len(f.nb) > 0 /\ (IsUpperB(f.nb[1]) \/ (Len(f.nb) > 1 /\ IsUpperL1(f.nb, 2)))
+LowerB(s) == [j \in 1..Len(s) |-> IF IsUpperB(s[j]) \/ IsUpperL1(s, j) THEN s[j] + 32 ELSE s[j]]
 \* member name: the tag name, else the lower-cased field name
 FName(f) == IF f.tb # <<>> THEN f.tb ELSE LowerB(f.nb)
 Skipped(f) == ~IsExported(f) \/ Opt(f, "dash") \/ Opt(f, "omit")
